@@ -1234,6 +1234,9 @@ func newOfficialRoaringIterator(data []byte) (*officialRoaringIterator, error) {
 			r.currentDataOffset += 4 * keys
 		}
 	} else {
+		if offsetOffset+int(r.keys*4) > len(data) {
+			return nil, fmt.Errorf("insufficient data for offsets: want %d bytes, got %d", offsetOffset+int(r.keys*4), len(data))
+		}
 		r.offsets = data[offsetOffset : offsetOffset+int(r.keys*4)]
 	}
 	// set key to -1; user should call Next first.
@@ -1322,15 +1325,19 @@ func (r *pilosaRoaringIterator) Next() (key uint64, cType byte, n int, length in
 	// a run container keeps its data after an initial 2 byte length header
 	var runCount uint16
 	if r.currentType == containerRun {
+		if int64(r.currentDataOffset)+runCountHeaderSize > int64(len(r.data)) {
+			r.Done(fmt.Errorf("container %d/%d, key %d, had offset %d, maximum %d",
+				r.currentIdx, r.keys, r.currentKey, r.currentDataOffset, len(r.data)))
+			return r.Current()
+		}
 		runCount = binary.LittleEndian.Uint16(r.data[r.currentDataOffset : r.currentDataOffset+runCountHeaderSize])
 		r.currentDataOffset += 2
 	}
-	if r.currentDataOffset > uint32(len(r.data)) || r.currentDataOffset < headerBaseSize {
+	if r.currentDataOffset >= uint32(len(r.data)) || r.currentDataOffset < headerBaseSize {
 		r.Done(fmt.Errorf("container %d/%d, key %d, had offset %d, maximum %d",
 			r.currentIdx, r.keys, r.currentKey, r.currentDataOffset, len(r.data)))
 		return r.Current()
 	}
-	r.currentPointer = (*uint16)(unsafe.Pointer(&r.data[r.currentDataOffset]))
 	var size int
 	switch r.currentType {
 	case containerArray:
@@ -1340,14 +1347,24 @@ func (r *pilosaRoaringIterator) Next() (key uint64, cType byte, n int, length in
 		r.currentLen = 1024
 		size = 8192
 	case containerRun:
+		if runCount == 0 {
+			r.Done(fmt.Errorf("container %d/%d, key %d, is a run container without runs",
+				r.currentIdx, r.keys, r.currentKey))
+			return r.Current()
+		}
 		r.currentLen = int(runCount)
 		size = r.currentLen * 4
+	default:
+		r.Done(fmt.Errorf("container %d/%d, key %d, has unknown type %d",
+			r.currentIdx, r.keys, r.currentKey, r.currentType))
+		return r.Current()
 	}
 	if int64(r.currentDataOffset)+int64(size) > int64(len(r.data)) {
 		r.Done(fmt.Errorf("container %d/%d, key %d, had offset %d+%d size, maximum %d",
 			r.currentIdx, r.keys, r.currentKey, r.currentDataOffset, size, len(r.data)))
 		return r.Current()
 	}
+	r.currentPointer = (*uint16)(unsafe.Pointer(&r.data[r.currentDataOffset]))
 	r.lastErr = nil
 	return r.Current()
 }
@@ -1375,12 +1392,22 @@ func (r *officialRoaringIterator) Next() (key uint64, cType byte, n int, length 
 	// a run container keeps its data after an initial 2 byte length header
 	var runCount uint16
 	if r.currentType == containerRun {
+		if int64(r.currentDataOffset)+runCountHeaderSize > int64(len(r.data)) {
+			r.Done(fmt.Errorf("container %d/%d, key %d, had offset %d, maximum %d",
+				r.currentIdx, r.keys, r.currentKey, r.currentDataOffset, len(r.data)))
+			return r.Current()
+		}
 		runCount = binary.LittleEndian.Uint16(r.data[r.currentDataOffset : r.currentDataOffset+runCountHeaderSize])
 		r.currentDataOffset += 2
 	}
-	if r.currentDataOffset > uint32(len(r.data)) || r.currentDataOffset < headerBaseSize {
+	if r.currentDataOffset >= uint32(len(r.data)) || r.currentDataOffset < headerBaseSize {
 		r.Done(fmt.Errorf("container %d/%d, key %d, had offset %d, maximum %d",
 			r.currentIdx, r.keys, r.currentKey, r.currentDataOffset, len(r.data)))
+		return r.Current()
+	}
+	if r.currentType == containerRun && (runCount == 0 || int64(r.currentDataOffset)+int64(runCount)*interval16Size > int64(len(r.data))) {
+		r.Done(fmt.Errorf("container %d/%d, key %d, had offset %d+%d runs, maximum %d",
+			r.currentIdx, r.keys, r.currentKey, r.currentDataOffset, runCount, len(r.data)))
 		return r.Current()
 	}
 	r.currentPointer = (*uint16)(unsafe.Pointer(&r.data[r.currentDataOffset]))
@@ -1625,7 +1652,8 @@ func (b *Bitmap) unmarshalPilosaRoaring(data []byte) error {
 
 	// Read key count in bytes sizeof(cookie)+sizeof(flag):(sizeof(cookie)+sizeof(uint32)).
 	keyN := binary.LittleEndian.Uint32(data[3+1 : 8])
-	if uint32(len(data)) < headerBaseSize+keyN*12 {
+	// header and offset sections: 12+4 bytes per key (64-bit math: keyN comes from the data)
+	if int64(len(data)) < int64(headerBaseSize)+int64(keyN)*16 {
 		return fmt.Errorf("malformed bitmap, key-cardinality not provided for %d containers", int(keyN)/12)
 	}
 
@@ -1633,6 +1661,9 @@ func (b *Bitmap) unmarshalPilosaRoaring(data []byte) error {
 	b.Containers.ResetN(int(keyN))
 	// Descriptive header section: Read container keys and cardinalities.
 	for i, buf := 0, data[headerSize:]; i < int(keyN); i, buf = i+1, buf[12:] {
+		if typ := binary.LittleEndian.Uint16(buf[8:10]); typ != uint16(containerArray) && typ != uint16(containerBitmap) && typ != uint16(containerRun) {
+			return fmt.Errorf("unsupported container type %d", typ)
+		}
 		b.Containers.PutContainerValues(
 			binary.LittleEndian.Uint64(buf[0:8]),
 			byte(binary.LittleEndian.Uint16(buf[8:10])),
@@ -1657,17 +1688,36 @@ func (b *Bitmap) unmarshalPilosaRoaring(data []byte) error {
 		if c == nil {
 			continue
 		}
+		// The container data must lie within the input: the slices below
+		// are built with unsafe and are not bounds checked.
 		switch c.typ() {
 		case containerRun:
+			if int64(offset)+runCountHeaderSize > int64(len(data)) {
+				return fmt.Errorf("run count out of bounds: off=%d, len=%d", offset, len(data))
+			}
 			runCount := binary.LittleEndian.Uint16(data[offset : offset+runCountHeaderSize])
+			if int64(offset)+runCountHeaderSize+int64(runCount)*interval16Size > int64(len(data)) {
+				return fmt.Errorf("runs out of bounds: off=%d, runs=%d, len=%d", offset, runCount, len(data))
+			}
+			if runCount == 0 {
+				return fmt.Errorf("run container without runs: off=%d", offset)
+			}
 			c.setRuns((*[0xFFFFFFF]interval16)(unsafe.Pointer(&data[offset+runCountHeaderSize]))[:runCount:runCount])
 			opsOffset = int(offset) + runCountHeaderSize + len(c.runs())*interval16Size
 		case containerArray:
+			if int64(offset)+int64(c.N())*2 > int64(len(data)) {
+				return fmt.Errorf("array out of bounds: off=%d, n=%d, len=%d", offset, c.N(), len(data))
+			}
 			c.setArray((*[0xFFFFFFF]uint16)(unsafe.Pointer(&data[offset]))[:c.N():c.N()])
 			opsOffset = int(offset) + len(c.array())*2 // sizeof(uint32)
 		case containerBitmap:
+			if int64(offset)+bitmapN*8 > int64(len(data)) {
+				return fmt.Errorf("bitmap out of bounds: off=%d, len=%d", offset, len(data))
+			}
 			c.setBitmap((*[0xFFFFFFF]uint64)(unsafe.Pointer(&data[offset]))[:bitmapN:bitmapN])
 			opsOffset = int(offset) + len(c.bitmap())*8 // sizeof(uint64)
+		default:
+			return fmt.Errorf("unsupported container type %d", c.typ())
 		}
 	}
 
@@ -4577,7 +4627,8 @@ func (op *op) UnmarshalBinary(data []byte) error {
 		}
 		op.value = 0
 	case opTypeAddRoaring, opTypeRemoveRoaring:
-		if len(data) < int(13+4+op.value) {
+		// op.value comes from the data: compare before converting to int
+		if op.value > uint64(len(data)) || len(data) < int(13+4+op.value) {
 			return fmt.Errorf("op data truncated - expected %d, got %d", 13+op.value, len(data))
 		}
 		op.opN = int(binary.LittleEndian.Uint32(data[13:17]))
@@ -5188,6 +5239,9 @@ func (b *Bitmap) UnmarshalBinary(data []byte) error {
 	}
 	statsHit("Bitmap/UnmarshalBinary")
 	b.ops, b.opN = 0, 0 // reset the op counters since we're reading new data.
+	if len(data) < 2 {
+		return errors.New("data too small")
+	}
 	fileMagic := uint32(binary.LittleEndian.Uint16(data[0:2]))
 	if fileMagic == MagicNumber { // if pilosa roaring
 		return errors.Wrap(b.unmarshalPilosaRoaring(data), "unmarshaling as pilosa roaring")
@@ -5246,8 +5300,14 @@ func readOffsets(b *Bitmap, data []byte, pos int, keyN uint32) error {
 		_, c := citer.Value()
 		switch c.typ() {
 		case containerArray:
+			if int64(offset)+int64(c.N())*2 > int64(len(data)) {
+				return fmt.Errorf("array out of bounds: off=%d, n=%d, len=%d", offset, c.N(), len(data))
+			}
 			c.setArray((*[0xFFFFFFF]uint16)(unsafe.Pointer(&data[offset]))[:c.N():c.N()])
 		case containerBitmap:
+			if int64(offset)+bitmapN*8 > int64(len(data)) {
+				return fmt.Errorf("bitmap out of bounds: off=%d, len=%d", offset, len(data))
+			}
 			c.setBitmap((*[0xFFFFFFF]uint64)(unsafe.Pointer(&data[offset]))[:bitmapN:bitmapN])
 		default:
 			return fmt.Errorf("unsupported container type %d", c.typ())
@@ -5270,7 +5330,13 @@ func readWithRuns(b *Bitmap, data []byte, pos int, keyN uint32) error {
 		_, c := citer.Value()
 		switch c.typ() {
 		case containerRun:
+			if pos+runCountHeaderSize > len(data) {
+				return fmt.Errorf("run count out of bounds: pos=%d, len=%d", pos, len(data))
+			}
 			runCount := binary.LittleEndian.Uint16(data[pos : pos+runCountHeaderSize])
+			if runCount == 0 || pos+runCountHeaderSize+int(runCount)*interval16Size > len(data) {
+				return fmt.Errorf("runs out of bounds: pos=%d, runs=%d, len=%d", pos, runCount, len(data))
+			}
 			// The official format stores runs as start:length, we need
 			// start:last. data belongs to the caller (and may be a
 			// read-only mmap), so convert a copy.
@@ -5284,9 +5350,15 @@ func readWithRuns(b *Bitmap, data []byte, pos int, keyN uint32) error {
 			c.setMapped(false)
 			pos += int(runCount)*interval16Size + runCountHeaderSize
 		case containerArray:
+			if pos+int(c.N())*2 > len(data) {
+				return fmt.Errorf("array out of bounds: pos=%d, n=%d, len=%d", pos, c.N(), len(data))
+			}
 			c.setArray((*[0xFFFFFFF]uint16)(unsafe.Pointer(&data[pos]))[:c.N():c.N()])
 			pos += int(c.N() * 2)
 		case containerBitmap:
+			if pos+bitmapN*8 > len(data) {
+				return fmt.Errorf("bitmap out of bounds: pos=%d, len=%d", pos, len(data))
+			}
 			c.setBitmap((*[0xFFFFFFF]uint64)(unsafe.Pointer(&data[pos]))[:bitmapN:bitmapN])
 			pos += bitmapN * 8
 		}
